@@ -718,12 +718,20 @@ func c16R5(ic *IC, r *Report) {
 			if !breaks || !ok || be.Op != token.EQL {
 				return true
 			}
-			rid := identOf(be.Y)
+			rid, lid := identOf(be.Y), identOf(be.X)
+			if lid != nil && lid.Name == "prefix" {
+				rid, lid = lid, identOf(be.Y) // prefix == parent
+				if lid == nil {
+					// prefix == filepath.Dir(parent): the other side is not a plain variable
+					n++
+					r.Fail("R16.5", fmt.Sprintf("previousRoot/stop-at-the-source-root#%d", n), ic.pos(ifs.Pos()), "the ancestor walk of previousRoot stops on "+types.ExprString(ifs.Cond)+", which does not compare the probed directory "+dir.Name()+" itself with the source root: the walk ends one level early and the vendor directory of a first-level project (GOPATH/src/<top>/vendor) is never probed for importers two or more levels below it")
+					return true
+				}
+			}
 			if rid == nil || rid.Name != "prefix" {
 				return true
 			}
 			n++
-			lid := identOf(be.X)
 			r.Check(lid != nil && info.ObjectOf(lid) == dir, "R16.5", fmt.Sprintf("previousRoot/stop-at-the-source-root#%d", n), ic.pos(ifs.Pos()), "the walk stops when the probed directory itself is the source root",
 				"the ancestor walk of previousRoot stops on "+types.ExprString(ifs.Cond)+", which does not compare the probed directory "+dir.Name()+" itself with the source root: the walk ends one level early and the vendor directory of a first-level project (GOPATH/src/<top>/vendor) is never probed for importers two or more levels below it")
 			return true
